@@ -450,6 +450,11 @@ class RIBFamily:
         run, mism = self.validate(ctx, trace)
         stats = self.stats(trace, self.prop)
         self.judge(ctx, res, trace, mism)
+        if info.get("hangs", 0) >= 2 and not res.violations and self.VH_CMD in ("rib-run", "srv-run"):
+            # the drivers stop after two calls that did not return; whatever came after was not replayed. The hangs themselves
+            # are deviations of other properties (see the notes) - an incomplete replay is not a verdict that this one holds
+            raise Infra(f"the driver gave up after {info['hangs']} calls that did not return (deviations of other properties: "
+                        + "; ".join(res.notes)[:600] + f"): the input sequences after that point were not replayed - no verdict on {ctx.prop}")
         res.coverage = {
             "states": states, "transitions": trans, "exhaustive": False,
             "traces_validated_against_impl": stats["segments"],
@@ -1277,6 +1282,11 @@ def client_attr(comp, ev, rec):
     both = {"clientAwait", "clientSendErrs", "clientRecvErrs", "clientSent"}
     if comp in c14:
         return {"C14"}
+    if comp == "clientConvergedWrongly":
+        # convergence reported although operations are outstanding (C13) - or although the stream has failed (C14: "returns the
+        # error instead of reporting convergence")
+        st = rec.get("st") or {}
+        return {"C13", "C14"} if (st.get("recvErrs") or 0) + (st.get("sendErrs") or 0) > 0 else {"C13"}
     if comp in both:
         return {"C13", "C14"}
     if comp.startswith("client"):
@@ -2720,7 +2730,24 @@ def c14_directed(ctx):
     return out
 
 
-REGISTRY["C14"].parts[0].directed = c14_directed
+def c14_idle_fault(ctx):
+    """The stream fails while the client is idle - every request answered, nothing queued or pending: AwaitConverged called
+    afterwards returns the recorded error (not convergence), a further Q returns, Close / Reset return."""
+    out = []
+    op = lambda i: {"k": "ops", "ops": [{"id": i, "typ": "ADD", "kind": "nh", "key": i}]}
+    for cfg, hello in (({}, []), ({"params": True, "elected": True, "elec": [0, 1]}, [{"a": "deliver", "r": {"k": "params_ok"}}, {"a": "deliver", "r": {"k": "elec", "id": [0, 1]}}])):
+        for nops in (0, 1, 3):
+            for fault in ([{"a": "recvfail"}], [{"a": "recveof"}], [{"a": "sendfail", "n": 0}, {"a": "q", "m": op(9)}]):
+                for fin in ("close", "reset"):
+                    w = [dict({"a": "new"}, **cfg), {"a": "connect"}, {"a": "start"}] + hello
+                    for i in range(1, nops + 1):
+                        w += [{"a": "q", "m": op(i)}, {"a": "deliver", "r": {"k": "res", "results": [{"id": i, "st": "RIB"}]}}]
+                    w += [{"a": "await"}] + fault + [{"a": "await"}, {"a": "q", "m": op(8)}, {"a": "await"}, {"a": fin}]
+                    out.append(json.dumps(w))
+    return out
+
+
+REGISTRY["C14"].parts[0].directed = lambda ctx: c14_directed(ctx) + c14_idle_fault(ctx)
 
 
 def c16_slow_consumer(ctx):
@@ -2749,3 +2776,16 @@ def c16_slow_consumer(ctx):
 
 
 REGISTRY["C16"].parts[0].directed = c16_slow_consumer
+
+
+def c13_dupq(ctx):
+    """Concurrent Q calls that carry one operation id (4 / 8 goroutines, 1500 rounds, fresh id per round): exactly one is
+    registered as pending, every other one is recorded as an error."""
+    out = []
+    for cfg in ({}, {"params": True, "elected": True, "elec": [0, 1]}):
+        for n in (4, 8):
+            out.append(json.dumps([dict({"a": "new"}, **cfg), {"a": "dupq", "n": n}]))
+    return out
+
+
+REGISTRY["C13"].parts[0].directed = c13_dupq
